@@ -32,14 +32,16 @@ Print Assumptions routed_families_satisfy_laws.
 (* device.c: the message a path hands to the destination socket is the very message the source
    socket delivered (header and body); over any sequence of callbacks of a path (any results, any
    d->rv seen) the messages sent are, in order, the messages received, except that the last received
-   one may instead be freed when the device is shutting down.
+   one may instead be freed when the device is shutting down (stated for the form of device_cb the
+   current source has, Gen/Consts.C13_DEVICE_FREES_ATTACHED = true; the form first pinned leaked a
+   message whose receive completed just before the path was aborted: device_pinned_form_leaked).
    Per direction, on ANY wire message (no well-formedness assumed): what a REQ/REP or SURVEY device
    forwards is the wire it got with exactly one word (the receiving pipe's id) put in front; what it
    forwards back is the wire it got with exactly one word taken off the front; a PAIRv1 device
    replaces the leading hop word by hop + 1; a BUS device forwards the wire unchanged. *)
 Theorem device_body_unchanged :
   (forall m, device_pass m = m) /\
-  (forall evs p p' o, device_run p evs = (p', o) ->
+  (forall evs p p' o, device_run C13_DEVICE_FREES_ATTACHED p evs = (p', o) ->
      exists rest, gots o = sents o ++ rest /\ (rest = [] \/ exists m, rest = [m] /\ In m (frees o))) /\
   (forall F, famlaws F -> forall h w w', dev_request F h w = FwdSend w' -> w' = be32 (h_pid h) ++ w) /\
   (forall F, famlaws F -> forall w p w', dev_reply F w = Some (p, w') -> exists a b c d, w = [a; b; c; d] ++ w') /\
@@ -52,6 +54,15 @@ Proof.
   split; [exact dev_reply_any|]. split; [exact pair1_dev_any|exact bus_dev_spec].
 Qed.
 Print Assumptions device_body_unchanged.
+
+(* the tree as first pinned (device_cb freed the attached message only in the SEND state; repaired by
+   f044c32): receive completes with a message, the path is aborted before the callback runs (result
+   replaced by the abort's code 20 = NNG_ECANCELED) -> the message is neither sent nor freed *)
+Theorem device_pinned_form_leaked : forall m,
+  let o := snd (device_run false (fst device_start) [(0%N, 20%N, Some m)]) in
+  gots o = [m] /\ sents o = [] /\ frees o = [].
+Proof. exact device_pinned_leak. Qed.
+Print Assumptions device_pinned_form_leaked.
 
 (* ---------- chain_roundtrip ---------- *)
 (* A requester (surveyor) sends id ++ body through devices 1..n (hops, in travel order: device i
@@ -271,6 +282,7 @@ Theorem route_consts_match :
   REQ_ID_MIN = C13_SURVEY_ID_MIN /\ REQ_ID_MAX = C13_SURVEY_ID_MAX /\
   REQ_ID_MIN = HI32 /\ (REQ_ID_MAX + 1 = W32)%N /\
   4 + 4 * RT_TTL_MAX = RT_HEADER_MAX /\
+  C13_DEVICE_FREES_ATTACHED = true /\
   (forall p, (PIPE_ID_MIN <= p <= PIPE_ID_MAX)%N -> pid_ok p).
 Proof.
   repeat (split; [reflexivity|]). intros p H. unfold pid_ok, PIPE_ID_MIN, PIPE_ID_MAX, HI32 in *. lia.
